@@ -273,6 +273,8 @@ def vcf_header_lines(world):
         "XI": '##INFO=<ID=XI,Number=.,Type=String,Description="Free text">',
     }
     for k in sorted(fmt):
+        if k in world.get("undeclared_formats", ()):
+            continue  # meta-information lines are optional: htslib reads such a field as a String with a warning
         if ("##FORMAT=<ID=%s," % k) not in have:
             lines.append(known_fmt[k])
     for k in sorted(info):
